@@ -131,6 +131,21 @@ func checkBrokerGroups(e *childEnv, interval int64, ts []int64, groups []brokerG
 	if len(got) != len(want) {
 		r.Violation("C13/broker/"+typ+"/row-lost-or-duplicated", fmt.Sprintf("interval %s: %d distinct timestamps in, %d out", ivName(interval), len(want), len(got)), e.wit("interval", interval, "batch", ts))
 	}
+	if cal.hasDST() {
+		sits := map[string]int{}
+		for _, t := range ts {
+			if sit := cal.dstSituation(t); sit != "" {
+				sits[sit]++
+				r.Count("broker/dst/"+typ+"/rows_"+sit, 1)
+			}
+		}
+		if sits["23h-day"] > 0 && sits["first-hour-after-23h-day"] > 0 {
+			r.Count("broker/dst/"+typ+"/batches_with_rows_on_23h_day_and_in_first_hour_after_it", 1)
+		}
+		if sits["25h-day-25th-hour"] > 0 && sits["25h-day"] > 0 {
+			r.Count("broker/dst/"+typ+"/batches_with_rows_in_25th_hour_and_earlier_on_that_day", 1)
+		}
+	}
 	r.Count("broker/"+typ+"/groups", len(groups))
 	if len(groups) > 1 {
 		r.Count("broker/"+typ+"/batches_with_several_families", 1)
@@ -188,6 +203,12 @@ func oversampledEdges(cal *calendar) []edge {
 		}
 		if ed.kind >= eYear {
 			for k := 0; k < 400; k++ {
+				edges = append(edges, ed)
+			}
+		}
+		// zones that move their clock: every hour edge of a 23 h / 25 h day and of the first hour after it
+		if cal.hasDST() && (cal.dstSituation(ed.ts) != "" || cal.dstSituation(ed.ts-1) != "") {
+			for k := 0; k < 60; k++ {
 				edges = append(edges, ed)
 			}
 		}
